@@ -70,6 +70,8 @@ def gen_event(R, items):
     if k < 0.6:
         n = R.choice([0, 1, 2])
         ev = {"f%d" % j: R.choice(["v%d" % R.randrange(100), "", None, b"\x00\xffbin", "a b|c"]) for j in range(n)}
+        if R.random() < 0.03:
+            ev["big"] = "x" * 70000          # a message larger than 64 KiB
         return {"kind": "upd", "item": it, "snap": R.choice([True, False]), "ev": ev if R.random() < 0.9 else None}
     return {"kind": R.choice(["eos", "cls"]), "item": it}
 
@@ -258,6 +260,11 @@ def run_real(scn, choose):
                 else:
                     cur["held"] = None
             ch["snap"] = snapshot()
+            # a library thread waiting for a lock whose owner sits inside an adapter call (C18: no lock may be held across one)
+            for t in sched.threads.values():
+                lk = t.meta.get("want_lock")
+                if not t.done and lk is not None and lk.owner is not None and lk.owner is not t and lk.owner.op[0] in ("aend",) :
+                    ch.setdefault("lock_waits", []).append((t.name, lk.label, lk.owner.name, lk.owner.op[1]))
             if status in ("quiescent", "exited", "stopped"):
                 break
         run.status = status
@@ -737,4 +744,21 @@ def oracle_c14(run, A, V):
         V("reader-before-credentials", "the reader thread ran before the credentials message was enqueued")
 
 
-ORACLES = {"C14": oracle_c14, "C01": oracle_c01, "C02": oracle_c02, "C03": oracle_c03, "C16": oracle_c16, "C17": oracle_c17, "C19": oracle_c19}
+def oracle_c18(run, A, V):
+    for c in A.calls:
+        if not c["tid"].startswith("T"):
+            V("adapter-call-off-pool", "adapter method %s(%s) invoked on thread %s" % (c["m"], c["item"], c["tid"]))
+    for t, ch in enumerate(run.chunks):
+        for (waiter, label, owner, m) in ch.get("lock_waits", []):
+            V("lock-held-across-adapter-call", "thread %s waits for the %s lock held by %s, which is inside adapter.%s — a blocked adapter call "
+              "stops the library" % (waiter, label, owner, {"sub": "subscribe", "usb": "unsubscribe", "snap": "issnapshot_available"}.get(m, m)))
+            return
+    if run.scn["pool"] == 1:
+        calls = [c for c in A.calls]
+        for a, b in zip(calls, calls[1:]):
+            if a["end"] is None or a["end"] > b["begin"]:
+                V("pool-of-one-overlap", "adapter calls overlap with a pool of one")
+                break
+
+
+ORACLES = {"C18": oracle_c18, "C14": oracle_c14, "C01": oracle_c01, "C02": oracle_c02, "C03": oracle_c03, "C16": oracle_c16, "C17": oracle_c17, "C19": oracle_c19}
